@@ -1844,6 +1844,17 @@ func (ts *Service) handleUpdateTemplate(w http.ResponseWriter, r *http.Request) 
 	// Update all associated tasks
 	err = ts.updateAllAssociatedTasks(original, updated, taskIds)
 	if err != nil {
+		// The tasks have been rolled back, restore the template too.
+		if original.ID != updated.ID {
+			if cerr := ts.templates.Create(original); cerr == nil {
+				for _, taskId := range taskIds {
+					ts.templates.AssociateTask(original.ID, taskId)
+				}
+				ts.templates.Delete(updated.ID)
+			}
+		} else {
+			ts.templates.Replace(original)
+		}
 		httpd.HttpError(w, err.Error(), true, http.StatusInternalServerError)
 		return
 	}
